@@ -30,7 +30,7 @@ def main(argv):
     import framework
     from framework import Check
     # a call into the library that does not return is a failing input, not a hung check
-    framework.install_watchdog(float(os.environ.get('VERIF_CALL_LIMIT_S', '20' if tier == 'quick' else '180')))
+    framework.install_watchdog(float(os.environ.get('VERIF_CALL_LIMIT_S', '60' if tier == 'quick' else '300')))
     try:
         if replay:
             import json
